@@ -715,6 +715,7 @@ fn op_c16() -> BoxedStrategy<Op> {
         4 => (pos_any(), vals(6)).prop_map(|(p, v)| Op::SetRange(p, v)),
         3 => op_batch(),
         2 => proptest::collection::vec(any::<u8>(), 0..40).prop_map(Op::SetMetadata),
+        1 => (prop_oneof![Just(4096usize), Just(65536usize), 1000usize..200_000], any::<u8>()).prop_map(|(n, b)| Op::SetMetadata((0..n).map(|i| b.wrapping_add((i % 251) as u8)).collect())),
         2 => Just(Op::Flush),
         2 => Just(Op::Reopen),
     ]
